@@ -166,6 +166,10 @@ def run(chk):
             rules = [dict(pre=0, pat=[{ga, gb}], acts=[[('I', rng.choice((ga, gb))) for _ in range(kins)]])]
             if rng.random() < 0.4:
                 rules.append(dict(pre=0, pat=[{ga}, {gb}], acts=[[('D',)], [('I', ga), ('I', gb)]]))
+            if rng.random() < 0.5:                                   # cursors that move backwards: the loop counter and the high-water mark at work
+                for r in rules:
+                    r['ret'] = rng.choice((0, -1, -1, -2, -3, 1))
+                rules.append(dict(pre=0, pat=[{ga, gb}, {ga, gb}], acts=[[('G', rng.choice((ga, gb)))], []], ret=rng.choice((-1, -2, -3))))
             prog.append(dict(maxloop=rng.choice((1, 5, 200)), rules=rules, alpha=[ga, gb]))
         fp = os.path.join(gdir, 'g%d.ttf' % k)
         open(fp, 'wb').write(K.build_font(gbase, prog))
